@@ -52,7 +52,7 @@ static int      vt_pipe_state[VT_MAXPIPES]; // 0 none, 1 open, 2 closed, 3 gone
 static uint32_t vt_pipe_ids[VT_MAXPIPES];
 static int      vt_npipes;
 static vt_ep   *vt_eps[VT_MAXEPS];
-static int      vt_neps;
+static vt_ep   *vt_last_ep;
 
 static void
 vt_fail_all(nni_list *l, nng_err rv)
@@ -230,17 +230,25 @@ vt_ep_init(void *arg, nng_url *url, nni_listener *nl)
 	ep->nlistener = nl;
 	NNI_LIST_INIT(&ep->waitpipes, vt_pipe, node);
 	nni_mtx_lock(&vt_mtx);
-	ep->idx          = vt_neps;
-	vt_eps[vt_neps++] = ep;
+	ep->idx = -1;
+	for (int i = 0; i < VT_MAXEPS; i++) {
+		if (vt_eps[i] == NULL) {
+			ep->idx   = i;
+			vt_eps[i] = ep;
+			break;
+		}
+	}
+	vt_last_ep = ep;
 	nni_mtx_unlock(&vt_mtx);
-	return (NNG_OK);
+	return (ep->idx < 0 ? NNG_ENOMEM : NNG_OK);
 }
 static void
 vt_ep_fini(void *arg)
 {
 	vt_ep *ep = arg;
 	nni_mtx_lock(&vt_mtx);
-	vt_eps[ep->idx] = NULL;
+	if (ep->idx >= 0) vt_eps[ep->idx] = NULL;
+	if (vt_last_ep == ep) vt_last_ep = NULL;
 	nni_mtx_unlock(&vt_mtx);
 }
 static nng_err
